@@ -68,7 +68,8 @@ def subset_keys(name, NK):
 
 
 DIGITS = (0.123456789012, -0.999999999999, 1e-12, -3e-12, 1234.567890123456, -0.000000000001, 0.5, 0.499999999999,
-          2.0 / 3.0, -1.0 / 7.0, 9999.999999999999, 1e-13)
+          2.0 / 3.0, -1.0 / 7.0, 9999.999999999999, 1e-13,
+          -1507.123456789012, -9999.5)      # negative values that fill a fixed-width field completely
 
 
 def generic_array(shape, pattern, seed, tag, complex_=True):
@@ -223,11 +224,13 @@ def impulses(shape, cap=None):
 
 # ------------------------------------------------------------------ independent writers (Wannier90 layouts)
 
+# The reference files are whitespace separated: values that fill a Fortran field completely (touching fields, as a
+# pure (2F18.12) writer would produce for -9999.5) are outside the statement, which is about the library's own writer.
 def ref_write_eig(seedname, E):
     with open(seedname + ".eig", "w") as f:
         for ik in range(E.shape[0]):
             for ib in range(E.shape[1]):
-                f.write(f"{ib + 1:5d}{ik + 1:5d}{E[ik, ib]:18.12f}\n")
+                f.write(f"{ib + 1:5d}{ik + 1:5d} {E[ik, ib]:18.12f}\n")
 
 
 def ref_write_amn(seedname, A):
@@ -238,7 +241,7 @@ def ref_write_amn(seedname, A):
         for ik in range(NK):
             for iw in range(NW):
                 for ib in range(NB):
-                    f.write(f"{ib + 1:5d}{iw + 1:5d}{ik + 1:5d}{A[ik, ib, iw].real:18.12f}{A[ik, ib, iw].imag:18.12f}\n")
+                    f.write(f"{ib + 1:5d}{iw + 1:5d}{ik + 1:5d} {A[ik, ib, iw].real:18.12f} {A[ik, ib, iw].imag:18.12f}\n")
 
 
 def ref_write_mmn(seedname, M, bkvec, order=None):
@@ -255,7 +258,7 @@ def ref_write_mmn(seedname, M, bkvec, order=None):
                 f.write(f"{ik + 1:5d}{int(bkvec.neighbours[ik][ib]) + 1:5d}{int(g[0]):5d}{int(g[1]):5d}{int(g[2]):5d}\n")
                 for n in range(NB):
                     for m in range(NB):
-                        f.write(f"{M[ik, ib, m, n].real:18.12f}{M[ik, ib, m, n].imag:18.12f}\n")
+                        f.write(f"{M[ik, ib, m, n].real:18.12f} {M[ik, ib, m, n].imag:18.12f}\n")
 
 
 # ------------------------------------------------------------------ runners
